@@ -263,7 +263,7 @@ pub fn c06_oracle(case: &ConvCase, exp: &Expected, obs: &Observation) -> Verdict
     let drop_not_last = (0..n.saturating_sub(1)).any(|i| matches!(case.prog(i).finish, Finish::Drop | Finish::Panic));
     let mut g = if n >= 2 && drop_not_last { Good::nontrivial() } else { Good::trivial() };
     for i in 0..n {
-        g = g.class(format!("finish:{}", match case.prog(i).finish { Finish::Respond { .. } => "respond", Finish::Writer { .. } => "writer", Finish::Upgrade { .. } => "upgrade", Finish::Drop => "drop", Finish::Panic => "panic", Finish::WriterUnused => "writer-unused" }));
+        g = g.class(format!("finish:{}", match case.prog(i).finish { Finish::Respond { .. } => "respond", Finish::Writer { .. } => "writer", Finish::Upgrade { .. } => "upgrade", Finish::Drop => "drop", Finish::Panic => "panic", Finish::WriterUnused => "writer-unused", Finish::RespondFailing { .. } => "respond-failing" }));
     }
     g = g.class(format!("transport:{:?}", case.transport));
     Verdict::Pass(g)
@@ -287,6 +287,12 @@ pub fn c04_conn_oracle(case: &ConvCase, exp: &Expected, obs: &Observation) -> Ve
     tri!(prefix("C04", comp_delivery_sequence(case, exp, obs)));
     let view = client_view(&obs.client, exp);
     tri!(prefix("C04/conn", comp_client_stream(exp, obs, &view, exp.msgs.len(), false)));
+    for (k, (_, m)) in view.finals.iter().enumerate() {
+        let rq = &case.conv.reqs[exp.msgs[k].req_idx];
+        if rq.version == "HTTP/1.0" && m.header_count("Transfer-Encoding") > 0 {
+            return crate::runner::fail("C04/conn/transfer-coding-sent-to-http10-client", format!("response #{} to an HTTP/1.0 request: {:?}", k, m.headers));
+        }
+    }
     let on_wire = view.finals.iter().any(|(_, m)| !m.body.is_empty());
     let mut g = if on_wire { Good::nontrivial() } else { Good::trivial() };
     g = g
@@ -296,4 +302,34 @@ pub fn c04_conn_oracle(case: &ConvCase, exp: &Expected, obs: &Observation) -> Ve
         .class_if(case.conv.reqs.iter().any(|r| r.version == "HTTP/1.0"), "http/1.0")
         .class(format!("transport:{:?}", case.transport));
     Verdict::Pass(g)
+}
+
+/// C06, "no request is answered twice": a `respond()` that fails half-way (its body source
+/// errors or panics) must not be followed by the automatic 500 for the same request.
+pub fn c06_failing_oracle(case: &ConvCase, exp: &Expected, obs: &Observation) -> Verdict {
+    if let Some(v) = engine_trouble(obs) {
+        return v;
+    }
+    if let Some(s) = &obs.stall {
+        return crate::runner::fail("C06/respond-failing/stall", s.clone());
+    }
+    let _ = exp;
+    // response heads on the wire: status lines at the start or after a CRLF
+    let out = &obs.client;
+    let mut heads = 0;
+    let mut i = 0;
+    while i + 9 <= out.len() {
+        if &out[i..i + 7] == b"HTTP/1." && (i == 0 || out[i - 1] == b'\n' || true) && out[i + 8] == b' ' {
+            heads += 1;
+        }
+        i += 1;
+    }
+    let delivered = obs.delivered.len();
+    if heads > delivered {
+        return crate::runner::fail(
+            "C06/respond-failing/answered-twice",
+            format!("{} requests delivered, {} response heads on the wire: {:?}", delivered, heads, crate::resp::head_preview(out)),
+        );
+    }
+    Verdict::Pass(Good::nontrivial().class(format!("delivered={}", delivered)))
 }
